@@ -28,6 +28,7 @@ def demo_commands(path):
         if re.match(r'^(gcc|g\+\+|cc|clang|python3|sh|bash|javac|java|\./|/tmp/|LD_LIBRARY_PATH=|cd )', s) and not s.startswith('#!/'):
             s = re.sub(r'\s+#.*$', '', s)
             s = re.sub(r'\s+\(.*\)\s*$', '', s)
+            s = re.sub(r'\s*;\s*echo\b.*$', '', s)
             cmds.append(s)
     return cmds
 
@@ -51,6 +52,8 @@ def run_demo(sd, cmds):
     last = (None, '')
     for c in cmds:
         rc, out = sh(c, cwd=WT, timeout=900)
+        if rc == 0 and re.search(r'\b(MISMATCH|FAIL(ED)?)\b', out) and not re.search(r'\b0 (mismatch|MISMATCH|fail)', out):
+            rc = 1
         last = (rc, out[-1500:])
         if rc != 0 and re.match(r'^(gcc|g\+\+|cc|clang|javac)', c):
             return ('build-failed', c + '\n' + out[-1500:])
@@ -103,6 +106,17 @@ def main():
             r['patched_demo'] = [pd[0], pd[1][-600:]]
             print(json.dumps(r))
             sys.stdout.flush()
+            if r['confirmed'] and os.environ.get('SEED_INSTALL'):
+                out_dir = os.path.join('/verif/seeded', sid)
+                os.makedirs(out_dir, exist_ok=True)
+                for fn in os.listdir(sd):
+                    shutil.copy(os.path.join(sd, fn), os.path.join(out_dir, fn))
+                meta = {'seed': sid, 'property': sid.split('-')[0], 'confirmed_by': 'tools/confirm_seed.py in a scratch worktree of /repo HEAD',
+                        'ran': {'demo_commands': cmds, 'tests_with_patch': '%d pass, unexpected failures %s' % (b1[0], b1[1]),
+                                'demo_clean_exit': cd[0], 'demo_patched_exit': pd[0], 'demo_patched_tail': pd[1][-400:]},
+                        'needs_to_manifest': 'see notes.md', 'breaks': 'see notes.md'}
+                with open(os.path.join(out_dir, 'meta.json'), 'w') as fh:
+                    json.dump(meta, fh, indent=1)
     finally:
         sh('git -C /repo worktree remove --force %s' % WT)
         shutil.rmtree(WT, ignore_errors=True)
